@@ -596,7 +596,11 @@ func ruleReaderWriterAgreement(c *Ctx, pf *parserFacts) {
 			runtimeCases = append(runtimeCases, t)
 		}
 	}
-	for _, b := range fn.Blocks {
+	var hostBlocks []*ssa.BasicBlock
+	for _, h := range dv.hostsOf(fn) { // (the handler may be a pipeline of stage functions)
+		hostBlocks = append(hostBlocks, h.Blocks...)
+	}
+	for _, b := range hostBlocks {
 		for _, in := range b.Instrs {
 			var f *types.Var
 			switch x := in.(type) {
@@ -1012,22 +1016,21 @@ func ruleEvCodeProvenance(c *Ctx, pf *parserFacts) {
 		return
 	}
 	c.Fn(shortFn(fn))
-	vw := pf.view(fn)
+	// decided on the paths of the function (whatever its shape: early returns, or one return of named results): on every
+	// path that returns a nil error the returned code is a table hit or a full-string strconv parse
+	paths, err := Enumerate(fn, SymConfig{Prog: c.P, MaxDepth: 1, Collapse: true})
+	if !c.Require(err == nil, "R10.8", "config.TomlKeyToEvCode", fmt.Sprint(err)) {
+		return
+	}
+	c.Paths += len(paths)
 	n := 0
-	for _, b := range fn.Blocks {
-		if b == fn.Recover {
+	seenSrc := map[string]bool{}
+	for _, p := range paths {
+		if p.End != "return" || len(p.Ret) != 2 || !p.Ret[1].IsNil() {
 			continue
-		}
-		r, ok := b.Instrs[len(b.Instrs)-1].(*ssa.Return)
-		if !ok || len(r.Results) != 2 {
-			continue
-		}
-		if k, isK := r.Results[1].(*ssa.Const); !isK || k.Value != nil {
-			continue // error return
 		}
 		n++
-		key := fmt.Sprintf("config.TomlKeyToEvCode/success-return#%d/provenance", n)
-		t := vw.Term(r.Results[0]).StripConv()
+		t := p.Ret[0].StripConv()
 		src := ""
 		var visit func(t *Term) bool
 		visit = func(t *Term) bool {
@@ -1059,10 +1062,19 @@ func ruleEvCodeProvenance(c *Ctx, pf *parserFacts) {
 			}
 			return false
 		}
-		if visit(t) {
-			c.OK("R10.8", key, c.P.Pos(r.Pos()), "returned code is a "+src)
+		okV := visit(t)
+		key := "config.TomlKeyToEvCode/success-return/provenance[" + src + "]"
+		if !okV {
+			key = fmt.Sprintf("config.TomlKeyToEvCode/success-return#%d/provenance", n)
+		} else if seenSrc[src] {
+			continue
+		}
+		seenSrc[src] = true
+		pos := c.P.Pos(fn.Pos())
+		if okV {
+			c.OK("R10.8", key, pos, "returned code is a "+src)
 		} else {
-			c.Bad("R10.8", key, c.P.Pos(r.Pos()), "the returned event code "+truncate(t.String(), 160)+" is neither a table hit nor the result of a full-string strconv parse: a lax conversion accepts names the file does not contain")
+			c.Bad("R10.8", key, pos, "the returned event code "+truncate(t.String(), 160)+" is neither a table hit nor the result of a full-string strconv parse: a lax conversion accepts names the file does not contain")
 		}
 	}
 	if n == 0 {
